@@ -179,11 +179,27 @@ def run_property(prop, tier, seed, procs):
                     meta[key] = {'kind': r['kind'], 'smt2': r.pop('smt2', None)}
                     r['name'] = key
                     results.append(r)
+    # ---------------- native side: differential search on every target (short), longer where an obligation is open
+    known = [k for k in load_known() if k.get('property') == prop]
+    open_funcs = set(r['name'][0] for r in results if r['verdict'] != 'unsat' and meta[r['name']]['kind'] != 'canary')
+    violations = []
+    native_tried = 0
+    budget_open = 300 if tier == 'thorough' else 25
+    budget_ok = 20 if tier == 'thorough' else 2
+    search_jobs = [(q, seed, budget_open if q in open_funcs else budget_ok) for q in targets if contracts.REG[q].gen is not None]
+    with ctx.Pool(min(procs, max(1, len(search_jobs)))) as pool:
+        found = pool.map(_search_worker, search_jobs, chunksize=1)
+    native_found = {}
+    for (q, _, _), (f, tried) in zip(search_jobs, found):
+        native_tried += tried
+        if f is not None:
+            native_found[q] = f
+
     still = {}
     for r in results:
-        if r['verdict'] != 'unsat' and meta[r['name']]['kind'] != 'canary':
+        if r['verdict'] != 'unsat' and meta[r['name']]['kind'] != 'canary' and r['name'][0] not in native_found:
             still.setdefault(r['name'][0], []).append(r['name'][1])
-    if still and sum(len(v) for v in still.values()) <= 12:
+    if still and sum(len(v) for v in still.values()) <= 4:
         jobs2 = [(q, names, timeout_ms, seed) for q, names in still.items()]
         with ctx.Pool(min(4, len(jobs2))) as pool:
             for rs in pool.map(retry_worker, jobs2, chunksize=1):
@@ -234,22 +250,6 @@ def run_property(prop, tier, seed, procs):
             canary_bad.append((func, exits[0][0]))
         canary_ok += sum(1 for n, v in cs if v != 'unsat')
     slowest = sorted([(r['time_s'], r['name'][1]) for r in results], reverse=True)[:5]
-
-    # ---------------- native side: differential search on every target (short), longer where an obligation is open
-    known = [k for k in load_known() if k.get('property') == prop]
-    open_funcs = set(f for f, _, _ in failed)
-    violations = []
-    native_tried = 0
-    budget_open = 300 if tier == 'thorough' else 25
-    budget_ok = 20 if tier == 'thorough' else 2
-    search_jobs = [(q, seed, budget_open if q in open_funcs else budget_ok) for q in targets if contracts.REG[q].gen is not None]
-    with ctx.Pool(min(procs, max(1, len(search_jobs)))) as pool:
-        found = pool.map(_search_worker, search_jobs, chunksize=1)
-    native_found = {}
-    for (q, _, _), (f, tried) in zip(search_jobs, found):
-        native_tried += tried
-        if f is not None:
-            native_found[q] = f
 
     # ---------------- runner hooks (ground evaluation, frame scans) registered by contract files
     extra_lines = []
